@@ -172,6 +172,43 @@ class Namespace(object):
             raise AttributeError(name)
 
 
+# Process-lifetime state of the implementation: mutable containers bound at class or module level
+# (not the constant tables, whose names are upper case, nor scapy's / enum's own class machinery).
+# A world stands for freshly started processes, so it owns a copy of each (see World.install_shared):
+# contacts of one process share them, separate worlds and snapshots do not.
+_SHARED_SITES = []
+_SHARED_SEEN = set()
+
+
+def _scan_shared(ns):
+    import copy
+    import enum
+    import inspect
+    import types
+    for mod in list(ns.modules.values()):
+        if not isinstance(mod, types.ModuleType) or id(mod) in _SHARED_SEEN:
+            continue
+        _SHARED_SEEN.add(id(mod))
+        owners = [mod]
+        for cls in list(vars(mod).values()):
+            if inspect.isclass(cls) and cls.__module__ == mod.__name__ and not issubclass(cls, enum.Enum) \
+                    and not hasattr(cls, 'fields_desc'):
+                owners.append(cls)
+        for owner in owners:
+            for (attr, val) in list(vars(owner).items()):
+                if attr.startswith('__') or attr.isupper() or not isinstance(val, (set, list, dict, bytearray)):
+                    continue
+                try:
+                    pristine = copy.deepcopy(val)
+                except Exception:
+                    continue
+                _SHARED_SITES.append((owner, attr, pristine))
+
+
+def shared_sites():
+    return _SHARED_SITES
+
+
 _TCPCL_COPIES = {}
 
 
@@ -203,6 +240,7 @@ def load_tcpcl(label='A'):
             # the first copy stays importable under its normal name
             sys.modules.update(fresh)
     _TCPCL_COPIES[label] = ns
+    _scan_shared(ns)
     return ns
 
 
@@ -224,7 +262,10 @@ def load_bp():
         mod = importlib.import_module(name)
         ns.modules[name.split('.', 1)[1].replace('.', '_')] = mod
         patch_clock(mod)
+    # "now" of the certificate validation (a bundle without creation time is validated now) is the world's clock
+    patch_clock(sys.modules['certvalidator'])
     _BP = ns
+    _scan_shared(ns)
     return ns
 
 
@@ -240,6 +281,7 @@ def load_udpcl():
             ns.modules[name] = importlib.import_module('udpcl.' + name)
         patch_clock(ns.modules['agent'])
         _UDPCL = ns
+        _scan_shared(ns)
     return _UDPCL
 
 
@@ -255,6 +297,7 @@ def load_btpu():
             ns.modules[name] = importlib.import_module('btpu.' + name)
         patch_clock(ns.modules['agent'])
         _BTPU = ns
+        _scan_shared(ns)
     return _BTPU
 
 
